@@ -167,6 +167,11 @@ class C16(Driver):
                 tid += 1
         flavour = "asan" if r.random() < 0.15 else "plain"
         plan = {"property": "C16", "knobs": knobs, "mode": mode, "sds": sds, "tasks": tasks, "flavour": flavour}
+        if mode == "single" and flavour == "plain" and r.random() < 0.2:
+            for t in tasks:
+                if t["role"] in ("r", "w") and sds[t["sd"]]["kind"] in ("pipe", "unix") and r.random() < 0.6:
+                    t["thread"] = 1
+            knobs["p"]["switch"] = r.choice([0.05, 0.3])
         if plan_by:
             plan["bystander"] = plan_by
         return plan
@@ -336,6 +341,7 @@ class C16(Driver):
                 writers_of.setdefault(t["sd"], []).append(t)
         for t in plan["tasks"]:
             T, s = t["id"], t["sd"]
+            start_idx = len(L)
             A("(defn task%d []" % T)
             if t["role"] == "w":
                 A("  (def h (H [:w %d])) (var off 0)" % s)
@@ -425,6 +431,17 @@ class C16(Driver):
                     A("  (protect (os/proc-wait (H [:p2 %d])))" % s)
                 A("  (try (sim/ev :ret %d 0 :exit (os/proc-wait (H [:p %d]))) ([e] (sim/ev :ret %d 0 :err e)))" % (T, s, T))
             A("  (sim/ev :done %d))" % T)
+            if t.get("thread"):
+                # the whole task runs in another OS thread: the stream travels there as a marshalled copy (duplicate
+                # descriptor, registered with that thread's loop); this thread closes its own copy right away
+                body = L[start_idx + 2:]
+                del L[start_idx:]
+                A("(defn task%d []" % T)
+                A("  (def h (H [:%s %d]))" % (t["role"], s))
+                A("  (ev/thread (fn [&] (var off 0)")
+                L.extend(body[:-1])
+                A("  (sim/ev :done %d)) nil :n)" % T)
+                A("  (:close h))")
         by = ""
         if plan.get("bystander"):
             b = plan["bystander"]
@@ -452,8 +469,11 @@ class C16(Driver):
         segs = {}
         order = []
         tof = {}
+        done_seq = {}
         for e in res.events:
             tof[e.seq] = e.t
+            if e.kind == "done":
+                done_seq[int(e.payload)] = e.seq
             if e.kind == "inv":
                 T, k = (int(x) for x in e.payload.split(" "))
                 inv[(T, k)] = e.seq
@@ -495,6 +515,10 @@ class C16(Driver):
                 c = ret.get((t["id"], 900))
                 if c is not None:
                     w_closed_seq = c[0]
+                elif t.get("thread") and t["id"] in done_seq:
+                    # the writer's copy of the stream lived in its thread and went away with it (the spawning thread
+                    # closed its own copy when it handed the stream over)
+                    w_closed_seq = done_seq[t["id"]]
             if kind in EMITS:
                 lower = upper = sd["emit"]
                 if kind == "killed":
